@@ -34,6 +34,11 @@ def make_scratch():
 
 
 def apply_edit(d, m):
+    if m.get('patch'):
+        r = subprocess.run(['git', 'apply', '--unsafe-paths', '--directory=' + d, os.path.join(HERE, m['patch'])], capture_output=True, text=True, cwd='/')
+        if r.returncode != 0:
+            r = subprocess.run(['patch', '-p1', '-s', '-i', os.path.join(HERE, m['patch'])], cwd=d, capture_output=True, text=True)
+        return None if r.returncode == 0 else 'stale: patch does not apply (%s)' % (r.stderr or r.stdout)[:200]
     for ed in m['edits']:
         p = os.path.join(d, ed['file'])
         s = open(p).read()
@@ -45,7 +50,12 @@ def apply_edit(d, m):
 
 def syntax_ok(d, m):
     from ivy import core
-    for ed in m['edits']:
+    edits = m.get('edits')
+    if edits is None:
+        import re as _re
+        files = _re.findall(r'^\+\+\+ b/(\S+)', open(os.path.join(HERE, m['patch'])).read(), flags=_re.M)
+        edits = [{'file': f} for f in files]
+    for ed in edits:
         if not ed['file'].endswith('.c'):
             continue
         r = subprocess.run(['clang-14', '-fsyntax-only', '-Werror=implicit-function-declaration'] + core.compile_flags(d)[:-1] +
@@ -111,6 +121,15 @@ def load_corpus():
     for fn in sorted(os.listdir(os.path.join(HERE, 'mutants'))):
         if fn.endswith('.json'):
             ms += json.load(open(os.path.join(HERE, 'mutants', fn)))
+    # behaviour-preserving refactorings written by independent sub-agents
+    nd = os.path.join(HERE, 'neutral_seeded')
+    allp = sorted(json.loads(l)['id'] for l in open(os.path.join(HERE, 'properties.jsonl')))
+    if os.path.isdir(nd):
+        for d in sorted(os.listdir(nd)):
+            for fn in sorted(os.listdir(os.path.join(nd, d))):
+                if fn.endswith('.diff'):
+                    ms.append({'id': 'ns-%s-%s' % (d, fn[:-5].replace('patch', '')), 'kind': 'neutral', 'rules': [], 'properties': allp,
+                               'patch': os.path.join('neutral_seeded', d, fn), 'desc': 'independent refactoring %s/%s' % (d, fn)})
     return ms
 
 
